@@ -13,6 +13,7 @@ A script is a list of ops:
                                                how = "overwrite_pages": overwrite_pages(ctx, [input], True)  (no backup)
                                                rows = the writes the input asks for (read by the reference model only)
     ["read"]                                   list(ctx.get_all_pages())
+    ["reader-start"] / ["reader-stop"]         a forked process takes / releases a read snapshot (BEGIN + SELECT) on the db
     ["close"]                                  ctx.close_db_conn()
 A script that does not end with "close" ends with os._exit(0) (no cleanup).
 
@@ -30,11 +31,14 @@ import os
 import sys
 
 DBNAME = "pages.db"
+# (file name, class): names that are legal on every POSIX file system but hostile to glob / shell / URI style handling
+DBNAMES = [("pages.db", "ordinary"), ("pages[en].db", "glob-metachar"), ("p*g?s.db", "glob-metachar"), ("a b.db", "space"),
+           ("\u00fcn\u00ef.db", "non-ascii"), ("-pages.db", "leading-dash"), ("100%.db", "percent")]
 SIDE = ["pages.db", "pages.db-wal", "pages.db-shm", "pages_backup.db", "pages_backup.db-journal",
         "pages_backup.db-wal", "pages_backup.db-shm"]
 
 KINDS = ["override-json", "plain-backup", "restore-killed", "process-dump", "double-backup",
-         "no-backup", "override-dir", "rerun-override"]
+         "no-backup", "override-dir", "rerun-override", "backup-with-reader"]
 
 # large pages, ONE big uncommitted overwrite transaction (bigger than SQLite's page cache); kill points sampled
 BULK_KINDS = ["bulk-overwrite", "bulk-overwrite-backup"]
@@ -178,10 +182,15 @@ def gen_bulk_scenario(rng, kind):
     return {"kind": kind, "tags": tags, "setup": [s0], "victim": v, "inputs": inputs, "npages": n}
 
 
-def gen_scenario(rng, kind, scale):
+def gen_scenario(rng, kind, scale, dbname=("pages.db", "ordinary")):
     """scale: rough number of pages (small in quick, larger in thorough)."""
-    if kind in BULK_KINDS:
-        return gen_bulk_scenario(rng, kind)
+    scn = gen_bulk_scenario(rng, kind) if kind in BULK_KINDS else _gen_scenario(rng, kind, scale)
+    scn["dbname"] = dbname[0]
+    scn["tags"]["dbname"] = dbname[1]
+    return scn
+
+
+def _gen_scenario(rng, kind, scale):
     n = rng.randint(max(3, scale // 2), scale)
     init = gen_pages(rng, n)
     start = rng.choice(["closed", "killed", "mixed"])
@@ -260,6 +269,26 @@ def gen_scenario(rng, kind, scale):
         v += adds(gen_writes(rng, init, 1, "UNC", new_start=3000))
         if rng.random() < 0.5:
             v.append(["read"])
+    elif kind == "backup-with-reader":
+        # another process holds a read snapshot (BEGIN + SELECT) from before the victim's commits until after
+        # backup_db(): the completed backup must still contain everything committed before backup_db() was called
+        v = [["reader-start"], ["open"]]
+        v += adds(gen_writes(rng, init, nw, "R1", new_start=2000)) + [["commit"]]
+        if rng.random() < 0.5:
+            v += adds(gen_writes(rng, init, rng.randint(1, 2), "R2", new_start=2500))
+            tags["pending_before"] = True
+        if rng.random() < 0.6:
+            v.append(["backup"])
+            tags["how"] = "backup_db"
+        else:
+            rows = gen_writes(rng, init, nw, "OV1", want_template=rng.choice([True, False]))
+            inputs["ov1"] = make_input("ov1", rows, False)
+            v.append(["override", "ov1", "analyze", rows])
+            tags["how"] = "analyze"
+        v += adds(gen_writes(rng, init, max(1, nw // 2), "NEW", new_start=3000)) + [["commit"]]
+        if rng.random() < 0.5:
+            v.append(["reader-stop"])
+            tags["reader_stopped_before_end"] = True
     elif kind == "rerun-override":
         rows1 = gen_writes(rng, init, nw, "OV1", want_template=rng.choice([True, False]))
         inputs["ov1"] = make_input("ov1", rows1, False)
@@ -370,13 +399,43 @@ def install_hooks(mark, dbpath):
     core.Wtp.add_page = add_page
 
 
-def run_script(script, dbpath, indir, input_types, mark, point=None):
+def start_reader(dbpath, mark):
+    """Fork a process that takes a read snapshot of the page table (BEGIN + SELECT) and holds it until it is told to stop
+    or this process dies (pipe EOF).  -> (pid, fd to write to / close)"""
+    import sqlite3
+    rr, rw = os.pipe()
+    hr, hw = os.pipe()
+    pid = os.fork()
+    if pid == 0:
+        try:
+            sys.settrace(None)
+            os.close(rr)
+            os.close(hw)
+            conn = sqlite3.connect(dbpath, isolation_level=None)
+            conn.execute("BEGIN")
+            conn.execute("SELECT count(*) FROM pages").fetchall()
+            os.write(rw, b"r")
+            os.read(hr, 1)
+            conn.execute("COMMIT")
+            conn.close()
+        finally:
+            os._exit(0)
+    os.close(rw)
+    os.close(hr)
+    os.read(rr, 1)
+    os.close(rr)
+    mark(["reader", pid])
+    return pid, hw
+
+
+def run_script(script, dbpath, indir, input_types, mark, point=None, skip_reader=False):
     """Run one process' script.  point(name, j) is called at every op boundary (kill point family 'op')."""
     from pathlib import Path
     from wikitextprocessor import Wtp
     import wikitextprocessor.dumpparser as DP
     from vf.ref.c11_restore import digest
     ctx = None
+    reader = None
     mark(["proc"])
     for j, op in enumerate(script):
         if point is not None:
@@ -408,6 +467,15 @@ def run_script(script, dbpath, indir, input_types, mark, point=None):
                 pass
         elif k == "close":
             ctx.close_db_conn()
+        elif k == "reader-start":
+            if not skip_reader:
+                reader = start_reader(dbpath, mark)
+        elif k == "reader-stop":
+            if reader is not None:
+                os.write(reader[1], b"x")
+                os.close(reader[1])
+                os.waitpid(reader[0], 0)
+                reader = None
         else:
             raise ValueError(op)
         mark(["op", j, "e"])
@@ -423,7 +491,7 @@ def main(argv):
     shard.prepare()
     mark = Marker(os.path.join(case, "marks"))
     install_hooks(mark, v["db"])
-    run_script(v["script"], v["db"], v["in"], v["input_types"], mark)
+    run_script(v["script"], v["db"], v["in"], v["input_types"], mark, skip_reader=bool(v.get("skip_reader")))
     os._exit(0)
 
 
